@@ -880,6 +880,8 @@ func (sc *scanScenario) wantVulnerable(r *sRec, a *sAdv) (want, known bool) {
 			return true, true
 		case v.FixedInVersion == "0" && eco.id != "ubuntu":
 			return false, true
+		case eco.id == "ubuntu" && debPrintsZero(v.FixedInVersion):
+			return true, true // ubuntu's reading of a fix that prints as "0"
 		case a.shape == "sentinel":
 			return false, false
 		}
